@@ -1,6 +1,7 @@
 //! Correspondence check and implementation-side oracles for the properties C01..C19 of
 //! erikbrinkman/cfr.  See /verif/DESIGN.md.
 mod cli;
+mod cli_model;
 mod core;
 mod gen;
 mod lib_props;
@@ -89,6 +90,7 @@ pub fn run_case(ctx: &mut Ctx, case: &Value) {
         "solve" => solve_props::case_solve(ctx, case),
         "meta" => solve_props::case_meta(ctx, case),
         "cli" => cli::case_cli(ctx, case),
+        "cli-reject" => cli::case_reject(ctx, case),
         _ => ctx.fail_corr(case, format!("unknown case op {:?}", op)),
     }
 }
